@@ -22,6 +22,8 @@ tests; anything else stops the run as an analysis error):
         (p, q) / (sign, man, exp)) evaluated from the source on a grid against "n is a nearest
         integer, d = -inf iff x is an integer, else 2^(d-2) <= |x - n| < 2^(d+1)" (grid
         evaluation, not a proof)
+  N-R7  nint_distance on zero and on every class with an infinite or nan component (class interpretation)
+  N-R8  rationals stored without create_reduced keep a positive denominator (sign analysis of mpq's methods)
 NOT decided: nint_distance beyond that grid, the fp and iv contexts, Python floats/complex
 (converted by ctx.convert: C09).
 """
@@ -133,6 +135,8 @@ def run(run, ix, tier):
     check_mag_grid(run, ix, lookup)
     run.rule('N-R6', floor=2, desc='nint_distance: rational and mpf branches as closed forms on a grid')
     check_nint_distance(run, ix)
+    check_nint_distance_specials(run, ix, lookup)
+    check_mpq_denominators(run, ix)
 
 
 def where(ix, name):
@@ -277,7 +281,7 @@ def check_mag(run, ix, lookup):
         if r.kind in ('PINF', 'NINF'):
             return isinstance(val, Ext) and val.which == 'inf', 'expected +inf for an infinity'
         if r.kind == 'NAN':
-            return True, ''
+            return isinstance(val, Ext) and val.which == 'nan', 'expected nan for nan (documented)'
         c = sym_offset(val, ['exp' + r.tag, 'bc' + r.tag])
         return c in (0, 1), 'expected exp + bc (+ at most 1): |x| < 2^(exp+bc) and 2^(exp+bc-1) <= |x|'
 
@@ -287,14 +291,15 @@ def check_mag(run, ix, lookup):
         note(ok, 'mpf %s' % r.label(), '%s; got %r' % (why, val))
     for re in all_raws('_re'):
         for im in all_raws('_im'):
-            if 'NAN' in (re.kind, im.kind):
-                continue
             kind, val, it = evaluate(lookup, 'mag', [MpcObj(re, im)], symclasses(re, im))
             label = 'mpc(%s, %s)' % (re.label(), im.label())
             if kind == 'raise':
                 note(False, label, 'raises %s' % val)
                 continue
-            if re.kind == 'Z':
+            if 'NAN' in (re.kind, im.kind):
+                # |z| is nan whichever component is nan: the answer must not depend on the order of the parts
+                ok, why = isinstance(val, Ext) and val.which == 'nan', 'expected nan when a component is nan'
+            elif re.kind == 'Z':
                 ok, why = real_ok(val, im)
             elif im.kind == 'Z':
                 ok, why = real_ok(val, re)
@@ -314,7 +319,7 @@ def check_mag(run, ix, lookup):
         run.findings.append(Finding('N-R2', rel, f.qualname, 'def mag',
                                     'mag(x) violates its bound on %d classes, e.g. x = %s: %s'
                                     % (len(problems), label, why), line=f.lineno))
-    run.sample('N-R2', 'mag evaluated symbolically on 10 mpf classes and 81 mpc class pairs')
+    run.sample('N-R2', 'mag evaluated symbolically on 10 mpf classes and 100 mpc class pairs')
 
 
 def check_ldexp_frexp(run, ix, lookup):
@@ -576,3 +581,137 @@ def check_nint_distance(run, ix):
                          'nint_distance(%s): %s' % bad, line=f.lineno))
     else:
         run.ok('N-R6', 'mpf branch: %d grid values (all signs, half-integers, |x| < 1/2, integers)' % n)
+
+
+# --------------------------------------------------------------------------- N-R7
+def check_nint_distance_specials(run, ix, lookup):
+    """N-R7.  nint_distance on the classes the grid of N-R6 does not reach: a zero gives (0, -inf); an infinite
+    or nan real OR imaginary part must raise ("requires a finite number") -- the encodings of the specials have
+    large negative exponents, so a magnitude test made before the mantissa test takes them for |x| < 1/2."""
+    run.rule('N-R7', floor=40, desc='nint_distance raises for every infinite or nan component, (0, -inf) for zero')
+    rel, f = where(ix, 'nint_distance')
+    bad = []
+    n = 0
+
+    def outcome(arg, sc):
+        it = ClassInterp(lookup, sc)
+        try:
+            return 'ok', it.run(lookup('nint_distance'), [arg])
+        except Raised as r:
+            return 'raise', r.what
+        except Unsupported as u:
+            return 'unsupported', str(u)
+    SPECIAL = ('NAN', 'PINF', 'NINF')
+    for r in all_raws():
+        if r.kind == 'N':
+            continue
+        kind, val = outcome(MpfObj(r), symclasses(r))
+        n += 1
+        if r.kind in SPECIAL:
+            ok = kind == 'raise' and 'ValueError' in str(val)
+            why = 'expected ValueError for a non-finite number, got %s %s' % (kind, 'a result pair' if isinstance(val, Tuple) else val)
+        else:
+            ok = kind == 'ok' and isinstance(val, Tuple) and len(val.items) == 2 and isinstance(val.items[0], Int) \
+                and val.items[0].v == 0 and isinstance(val.items[1], Ext) and val.items[1].which == 'ninf'
+            why = 'expected (0, -inf) for zero, got %s %r' % (kind, val)
+        if ok:
+            run.ok('N-R7')
+        else:
+            bad.append(('mpf %s' % r.label(), why))
+    for re in all_raws('_re'):
+        for im in all_raws('_im'):
+            if re.kind not in SPECIAL and im.kind not in SPECIAL:
+                continue
+            kind, val = outcome(MpcObj(re, im), symclasses(re, im))
+            n += 1
+            if kind == 'raise' and 'ValueError' in str(val):
+                run.ok('N-R7')
+            else:
+                bad.append(('mpc(%s, %s)' % (re.label(), im.label()),
+                            'expected ValueError for a non-finite component, got %s %s'
+                            % (kind, 'a result pair' if isinstance(val, Tuple) else val)))
+    if bad:
+        run.rule('N-R7')['sites'] += len(bad)
+        run.rule('N-R7')['failed'] += len(bad)
+        run.obligations += len(bad)
+        label, why = bad[0]
+        run.findings.append(Finding('N-R7', rel, f.qualname, 'def nint_distance',
+                                    'nint_distance accepts a non-finite number on %d of %d classes, e.g. %s: %s '
+                                    '(nint_distance(inf) == (0, -458): inf "within 2**-458 of the integer 0")'
+                                    % (len(bad), n, label, why), line=f.lineno))
+    run.sample('N-R7', 'nint_distance interpreted on %d special operand classes' % n)
+
+
+# --------------------------------------------------------------------------- N-R8
+def check_mpq_denominators(run, ix):
+    """N-R8.  isnpint, nint_distance and mag look at a rational through (p, q) and assume q > 0 (the reduced form
+    that create_reduced establishes: its gcd loop ends with a divisor that has the sign of q).  Every method of
+    mpq that stores `_mpq_` directly, bypassing create_reduced, must therefore store a denominator that is
+    positive: a tiny sign analysis over the method body (denominators unpacked from `_mpq_` are positive;
+    products and powers of positives are positive; a swap moves the sign information; `if b < 0: a, b = -a, -b`
+    makes b positive)."""
+    run.rule('N-R8', floor=6, desc='rationals stored without create_reduced keep a positive denominator')
+    rel = 'mpmath/rational.py'
+    cls = ix.module(rel).classes.get('mpq')
+    if cls is None:
+        raise AnalysisError('class mpq vanished')
+
+    def positive(e, pos):
+        if isinstance(e, ast.Name):
+            return e.id in pos
+        if isinstance(e, ast.Constant):
+            return isinstance(e.value, int) and e.value > 0
+        if isinstance(e, ast.BinOp) and isinstance(e.op, ast.Mult):
+            return positive(e.left, pos) and positive(e.right, pos)
+        if isinstance(e, ast.BinOp) and isinstance(e.op, ast.Pow):
+            return positive(e.left, pos)
+        return False
+
+    def walk(body, pos, f):
+        for st in body:
+            if isinstance(st, ast.Assign) and len(st.targets) == 1:
+                t, v = st.targets[0], st.value
+                if isinstance(t, ast.Attribute) and t.attr == '_mpq_' and isinstance(v, ast.Tuple) and len(v.elts) == 2:
+                    if positive(v.elts[1], pos):
+                        run.ok('N-R8', '%s: `%s` stores a positive denominator' % (f.name, norm(st)))
+                    else:
+                        run.fail(Finding('N-R8', rel, 'mpq.%s' % f.name, norm(st), 'the denominator `%s` can be negative '
+                                         'here and create_reduced is bypassed: isnpint / nint_distance / mag assume q > 0 '
+                                         '(isnpint(mpq(-1,2)**-1) was False for the value -2)' % norm(v.elts[1]),
+                                         line=st.lineno))
+                elif isinstance(t, ast.Tuple) and isinstance(v, ast.Attribute) and v.attr == '_mpq_' and len(t.elts) == 2:
+                    pos.discard(norm(t.elts[0]))
+                    pos.add(norm(t.elts[1]))
+                elif isinstance(t, ast.Tuple) and isinstance(v, ast.Tuple) and len(t.elts) == len(v.elts):
+                    new = {norm(a) for a, b in zip(t.elts, v.elts) if positive(b, pos)}
+                    for a in t.elts:
+                        pos.discard(norm(a))
+                    pos |= new
+                elif isinstance(t, ast.Name):
+                    pos.discard(t.id)
+                    if positive(v, pos):
+                        pos.add(t.id)
+            elif isinstance(st, ast.If):
+                # `if b < 0: a, b = -a, -b`  makes b non-negative (non-zero is the caller's concern)
+                tst = st.test
+                flip = None
+                if isinstance(tst, ast.Compare) and isinstance(tst.ops[0], ast.Lt) and isinstance(tst.left, ast.Name) \
+                        and norm(tst.comparators[0]) == '0' and not st.orelse:
+                    for s2 in st.body:
+                        if isinstance(s2, ast.Assign) and isinstance(s2.targets[0], ast.Tuple) and \
+                                isinstance(s2.value, ast.Tuple):
+                            for a, b in zip(s2.targets[0].elts, s2.value.elts):
+                                if norm(a) == tst.left.id and norm(b) == '-%s' % tst.left.id:
+                                    flip = tst.left.id
+                p1, p2 = set(pos), set(pos)
+                walk(st.body, p1, f)
+                walk(st.orelse, p2, f)
+                pos.clear()
+                pos |= (p1 & p2)
+                if flip:
+                    pos.add(flip)
+            elif isinstance(st, (ast.For, ast.While, ast.With, ast.Try)):
+                walk(getattr(st, 'body', []), pos, f)
+    for st in cls.node.body:
+        if isinstance(st, ast.FunctionDef):
+            walk(st.body, set(), st)
